@@ -8,12 +8,14 @@
 package simhook
 
 import (
+	"context"
 	crand "crypto/rand"
 	"fmt"
 	"io"
 	"sort"
 	"sync"
 	"sync/atomic"
+	"time"
 )
 
 // Hooks is implemented by the simulator.
@@ -30,6 +32,16 @@ type Hooks interface {
 	TryLock(m *sync.Mutex) bool
 	RWTryLock(m *sync.RWMutex) bool
 	TryRLock(m *sync.RWMutex) bool
+	// CondWait, CondSignal, CondBroadcast stand in for the methods of a sync.Cond: a task
+	// that waits gives up the cond's lock through the simulator, is parked, and is
+	// released by the scheduler after a Signal or Broadcast has named it.
+	CondWait(c *sync.Cond)
+	CondSignal(c *sync.Cond)
+	CondBroadcast(c *sync.Cond)
+	// GoForeign runs f as a new task although the caller is not a task (a timer's or a
+	// context's AfterFunc goroutine). It reports false if it cannot (then the caller
+	// runs f itself).
+	GoForeign(f func()) bool
 	Go(f func())
 	// Woke is called by a task right after an operation that may have blocked on a
 	// real (uninstrumented) primitive: it parks the task until the scheduler
@@ -135,6 +147,55 @@ func TryRLock(m *sync.RWMutex) bool {
 		return h.TryRLock(m)
 	}
 	return m.TryRLock()
+}
+
+func CondWait(c *sync.Cond) {
+	if h := get(); h != nil {
+		h.CondWait(c)
+		return
+	}
+	c.Wait()
+}
+
+// CondSignal / CondBroadcast: also when called by a goroutine that is not a task (a
+// timer), tasks parked in CondWait have to hear of it.
+func CondSignal(c *sync.Cond) {
+	if p := current.Load(); p != nil {
+		p.h.CondSignal(c)
+	}
+	c.Signal()
+}
+
+func CondBroadcast(c *sync.Cond) {
+	if p := current.Load(); p != nil {
+		p.h.CondBroadcast(c)
+	}
+	c.Broadcast()
+}
+
+// AfterFunc is time.AfterFunc whose function runs as a task of the simulation.
+func AfterFunc(d time.Duration, f func()) *time.Timer {
+	p := current.Load()
+	if p == nil {
+		return time.AfterFunc(d, f)
+	}
+	return time.AfterFunc(d, func() { runForeign(p, f) })
+}
+
+// CtxAfterFunc is context.AfterFunc whose function runs as a task of the simulation.
+func CtxAfterFunc(ctx context.Context, f func()) (stop func() bool) {
+	p := current.Load()
+	if p == nil {
+		return context.AfterFunc(ctx, f)
+	}
+	return context.AfterFunc(ctx, func() { runForeign(p, f) })
+}
+
+func runForeign(p *holder, f func()) {
+	if cur := current.Load(); cur == p && p.h.GoForeign(f) {
+		return
+	}
+	f() // the run it belonged to is over, or the engine cannot adopt it
 }
 
 // Go starts f as a new goroutine (a new simulated task when called by a task).
